@@ -78,6 +78,19 @@ def run(chk, replay=None):
     for c in corpus:
         if c.get("kind") != "varinput":
             inputs.append(("corpus", c["text"]))
+    # a text with backtick escapes, then a fault further along the same line: the error quotes that line as it is written
+    # (these are always among the inputs compared with the model, like the corpus)
+    ESC = ["`TAB`", "`LF`", "`CR`", "`CRLF`", "`SP`", "`BK`", "`U+4E59`", "`U+41`", "`“`", "`”`", "`「`", "`U+1F005`", "`XY`", "`"]
+    for _ in range(40 if quick else 400):
+        o, c = rng.choice([("“", "”"), ("「", "」"), ("“", "”")])
+        body = "".join(rng.choice(["甲", "a", "年龄", " ", "，"] + ESC + ESC) for _ in range(rng.randrange(1, 6)))
+        if o == "「":
+            body = body.replace("`“`", "`「`").replace("`”`", "`」`")
+        fault = rng.choice([" ）", " 】", " 令丁设为4", " + +", "；；（", "、"])
+        pre = rng.choice(["", "令首 = 1\n", "如果真：\n    令内 = 2\n", "注：头\r\n"])
+        post = rng.choice(["", "\n令尾 = 3", "\r\n（显示：1）\r\n"])
+        line = rng.choice(["令乙设为", "（显示：", "输出", "令乙 = 1 + "]) + o + body + c + fault
+        inputs.append(("escape-then-fault", pre + line + post))
     n_corpus = len(inputs)
 
     # ---- arbitrary Unicode
